@@ -7610,9 +7610,20 @@ class HCI_Command_Complete_Event(HCI_Event, Generic[_RP]):
             return event
 
         # Parse the return parameters bytes into an object.
-        event.return_parameters = subclass.parse_return_parameters(
-            return_parameters_bytes
-        )  # type: ignore[assignment]
+        try:
+            event.return_parameters = subclass.parse_return_parameters(
+                return_parameters_bytes
+            )  # type: ignore[assignment]
+        except Exception as error:
+            # Truncated or malformed return parameters: keep them as raw bytes, so
+            # that the event still reaches whoever waits for this command
+            logger.warning(
+                f'invalid return parameters for opcode {event.command_opcode:#04x}: '
+                f'{error}'
+            )
+            event.return_parameters = HCI_GenericReturnParameters(
+                data=return_parameters_bytes
+            )  # type: ignore[assignment]
 
         return event
 
